@@ -379,6 +379,7 @@ package smtp
 //@ func smtp.Client.cmd (expectCode, format, args) (code, msg, err)
 //@   requires[C05:format] c != nil && nocrlf(format)
 //@   requires[C05:args] forall k :: 0 <= k && k < len(args) && istype(args[k], "string") ==> nocrlf(unboxstr(args[k]))
+//@   requires[C05:byte-args] forall k :: 0 <= k && k < len(args) && istype(args[k], "[]byte") ==> nocrlf(str(unboxslc(args[k])))
 //@   requires[C05:path] (kind(format) == 3 || kind(format) == 4) ==> len(args) >= 1 && istype(args[0], "string") && pathsafe(unboxstr(args[0]))
 //@ pred namesafe(c *smtp.Client) = c != nil && (c.didHello || argsafe(c.localName))
 //@ func smtp.Client.hello
@@ -515,3 +516,8 @@ package smtp
 // Data has accepted none; in sendSingleMsg it is written to by Msg.WriteTo only (assertions in the mail package).
 //@ func smtp.Client.Data () (w, err)
 //@   ensures[C03:untouched] err == nil ==> w.sinkacc == 0
+
+// C05 (continued): AUTH lines - the mechanism name is a token, every response is base64 (whatever the credentials are)
+//@ func smtp.Client.Auth (a) (err)
+//@   requires[C05:wf] namesafe(c) && a != nil
+//@   loop 1 invariant[C05:responses-are-base64] c != nil && c.didHello
